@@ -47,4 +47,6 @@ def dedupStr (l : List String) : List String :=
 
 def jstrs (l : List String) : Json := .arr (l.map Json.str).toArray
 
+def boolsJson (l : List (String × Bool)) : Json := Json.mkObj (l.map (fun (k, b) => (k, Json.bool b)))
+
 end Driver
